@@ -9,8 +9,23 @@ from .. import observe as O
 from .journey import moving
 
 
-def audit(Q, option_of, rep, activity, tol=1e-9):
-    """option_of(node id) -> 'resume' | 'restart' | 'resample' | 'reroute' | None (node not audited)."""
+def _exact(x):
+    """Rational value of a Decimal field or of a sampled float as exact mode reads it (Decimal(str(v)))."""
+    from decimal import Decimal
+    from fractions import Fraction
+    try:
+        return Fraction(x) if isinstance(x, Decimal) else Fraction(Decimal(str(x)))
+    except (OverflowError, ValueError):
+        return float(x)
+
+
+def audit(Q, option_of, rep, activity, tol=1e-9, exact=False):
+    """option_of(node id) -> 'resume' | 'restart' | 'resample' | 'reroute' | 'none' | None (node not audited).
+    exact=True: rational arithmetic on Decimal fields and Decimal(str(sample)), no tolerance (C20)."""
+    import builtins
+    float = _exact if exact else builtins.float
+    if exact:
+        tol = 0
     samples = defaultdict(list)
     for tag, t, ind, v in Q.built.samples:
         if tag[0] == "srv":
